@@ -57,10 +57,10 @@ def strip_comments(src: str) -> str:
 
 
 # Redis-broker clauses of the broker properties live in one file (Props/Redis.lean), listed here per property
-REDIS_MODULE = "RepidProofs.Props.Redis"
+REDIS_MODULE = "RepidProofs.Props.RedisConservation"   # imports Props/Redis.lean
 REDIS_THEOREMS = {
-    "C01": ["redis_ack_removes", "redis_nack_dead_letters", "redis_reject_origin", "redis_requeue_atomic", "take_marks_processing",
-            "unmark_lists"],
+    "C01": ["redis_conservation", "step_places", "inv_step", "inv_empty", "redis_ack_removes", "redis_nack_dead_letters",
+            "redis_reject_origin", "redis_requeue_atomic", "take_marks_processing", "unmark_lists"],
     "C03": ["maintenance_single", "maintenance_not_before"],
     "C05": ["ceilSecs_le_secs", "fetchDelayed_due", "redis_never_early", "enqueue_score", "delayed_only_visible_in_delayed",
             "truncated_score_early_witness"],
